@@ -26,7 +26,7 @@ EXTENDS WriterPipeline, Json, IOUtils, TLCExt
 TraceLog == ndJsonDeserialize(IOEnv.TRACE)
 
 CfgOf(j) == [script |-> j.script, hdr |-> j.hdr, trl |-> j.trl, defer |-> j.defer, comp |-> "plain", fsync |-> FALSE,
-             fault |-> j.fault, pool |-> j.pool, maxQ |-> j.maxQ, cap |-> j.cap, fdfix |-> TRUE]
+             fault |-> j.fault, pool |-> j.pool, maxQ |-> j.maxQ, cap |-> j.cap, fdfix |-> TRUE, emptyfix |-> TRUE]
 
 TraceConfigs == {CfgOf(TraceLog[1].cfg)}
 
@@ -72,7 +72,7 @@ TrConfig == /\ l <= Len(TraceLog) /\ Ev.e = "Config" /\ l' = l + 1 /\ AllDone
             /\ obs' = [gets |-> 0, faulted |-> FALSE, syncx |-> FALSE]
 
 Silent == \/ (UCall /\ clog' = clog)
-          \/ UHdr \/ UChk \/ UBlkI \/ UBlkB \/ UAdd \/ UThrow \/ UEnd \/ UClosed \/ UEod \/ UXPush \/ UPushChk
+          \/ UHdr \/ UChk \/ UBlkI \/ UBlkB \/ UBlkN \/ UAdd \/ UThrow \/ UEnd \/ UClosed \/ UEod \/ UXPush \/ UPushChk
           \/ Worker
           \/ WPopChk \/ (WGet /\ wt'.pc = "sd0") \/ WSetVal \/ WCatch1 \/ WCatch2 \/ WShut0 \/ WDtor
 
